@@ -61,7 +61,7 @@ c("C14", True, "exhaustive enumeration of the 14 built-in sets (through the real
   "All 14 sets through the binary (eight id lists each: single ids and lists in both orders must give one verdict) and the library (never a panic, agreement, accepted <=> true quadtree, pixel pitch measured from actual snapping = cellSize/16 for every id); all ~4 900 single-field perturbations of the 7 accepted sets at every level with a two-sided oracle; 5 000 (quick) / 320 000 (thorough) random perturbation pairs/triples.",
   "The predicate uses the tool's stated 1.99-2.01 band for cell sizes; perturbations are generated clearly inside or outside it. F3 (fixed in 13755cc) is covered by the binary runs.", "DESIGN.md §5 C14")
 c("C15", True, PBT + "tiles/points over all built-in sets and their corner-of-origin twins against an independent extent computed from the document numbers",
-  "100 000 (quick) / 16 M (thorough) (set, matrix, tile, interior point, outside point) cases: ToNative, FromNative, MatrixBoundingBox, twin agreement, in x,y order decided from orderedAxes; outside points also infinite, NaN and finite up to MaxFloat64; every second case a point 2^-24..2^-44 of a tile from an edge, its tile decided with rational arithmetic and checked when float64 rounding cannot move it across.",
+  "100 000 (quick) / 16 M (thorough) (set, matrix, tile, interior point, outside point) cases: ToNative, FromNative, MatrixBoundingBox, twin agreement, in x,y order decided from orderedAxes; outside points also infinite, NaN and finite up to MaxFloat64; every second case a point 2^-24..2^-44 of a tile from an edge, its tile decided with rational arithmetic and checked when float64 rounding cannot move it across; sub-check C15Ref: 21 reference positions known from the CRS definitions (inside the area of use in x,y order; transposed positions outside).",
   "The independent extent trusts only the document numbers and orderedAxes (not tms20's EPSG axis table).", "DESIGN.md §5 C15")
 c("C16", True, PBT + "structure-aware JSON mutator over the shipped documents; round-trip, stability and an independent must-reject predicate; (thorough) native fuzzing for the no-panic clause",
   "10 000 (quick) / 1.6 M (thorough) mutated documents (0-4 mutations) + the 15 shipped documents exhaustively: no panic, decode/encode/decode equality (structural with nil = empty list, and behavioural through MatrixBoundingBox/FromNative), byte-stable encoding also of retained values while other documents are decoded, semantic equality for shipped documents, must-reject classes rejected; one case in three also through tms20.LoadJSONTileMatrixSet on a file (same verdict and value; a document followed by further content is refused). Found F7b and F13.",
